@@ -6,6 +6,8 @@ CONSTANTS
   SLForms = {"normal", "noreason", "noreason_sp", "nospace", "badversion", "http10", "empty", "long", "lf"}
   Codes = {"101", "200", "407", "000", "999", "12345", "-1", "1e2", ""}
   HBForms = {"none", "wellformed", "nocolon", "hugeline", "manylines", "cl_short", "cl_long", "cl_bad", "cl_huge", "nobody_cl", "chunked", "chunked_bad", "chunked_huge", "fold", "nul", "emptyname", "spacename", "noend"}
+  Decls = {"0", "1", "1023", "1024", "1025", "1048576", "268435456", "2147483648", "9223372036854775807", "9223372036854775808", "18446744073709551616", "-1", "abc", "1e3", "0x400"}
+  DeclCodes = {"200", "403", "101"}
   MaxDev = 3
 CONSTRAINT Emit
 INVARIANTS InvRefines InvConnOnlyIfProven InvFailureCloses InvSuccessOpenNoDeadline
